@@ -44,6 +44,7 @@ func isCanonicalUUID(s string) bool {
 func WalkRoots(roots []string, withContent bool) Tree {
 	t := Tree{Dirs: map[string]int{}, Hashes: map[[32]byte]int{}, Names: map[[32]byte]string{}}
 	for _, root := range roots {
+		root = filepath.Clean(root)
 		ents, err := os.ReadDir(root)
 		if err != nil {
 			if os.IsNotExist(err) {
